@@ -229,6 +229,19 @@ func (s *JavaFullListener) EnterFormalParameter(ctx *parser.FormalParameterConte
 	formalParameters[ctx.VariableDeclaratorId().GetText()] = ctx.TypeType().GetText()
 }
 
+// The typed parameters of a lambda, `(Foo x) -> x.run()`, end with the lambda: afterwards the
+// name means again what it meant before (a lambda parameter can only hide a field).
+func (s *JavaFullListener) ExitLambdaExpression(ctx *parser.LambdaExpressionContext) {
+	parameters, ok := ctx.LambdaParameters().(*parser.LambdaParametersContext)
+	if !ok || parameters.FormalParameterList() == nil {
+		return
+	}
+	list := parameters.FormalParameterList().(*parser.FormalParameterListContext)
+	for _, param := range list.AllFormalParameter() {
+		delete(formalParameters, param.(*parser.FormalParameterContext).VariableDeclaratorId().GetText())
+	}
+}
+
 func (s *JavaFullListener) EnterFieldDeclaration(ctx *parser.FieldDeclarationContext) {
 	declarators := ctx.VariableDeclarators()
 	typeType := declarators.GetParent().GetChild(0).(*parser.TypeTypeContext)
